@@ -91,8 +91,12 @@ CHECKS["C03"] = dict(
           "the free-row equations; exact order-independent accumulation (via C09). The global statement 'solution <=> weak "
           "form at every free node, prescribed values, floating conductors, reported charges' is decided per run by an "
           "independent SI-unit assembly (numpy) of the Galerkin equations from the drawn problem and the .res file the real "
-          "esolver wrote (labelled partial: not a theorem); renumbering = permutation and the true solver residual are checked too."),
-    design_ref="DESIGN.md section 3, C03",
+          "esolver wrote (labelled partial: not a theorem); the true solver residual is checked too. The node renumbering all three "
+          "solvers apply first (libfemm/cuthill.cpp) is Model/Cuthill.lean: Properties/C03.lean proves, for every graph over at least "
+          "two nodes, that the numbering loop never reaches an out-of-range read, ends within N passes and ends with a bijection of "
+          "the node indices (cuthill_numbering_total_and_bijective); the model is compared with the real solvers on every solved "
+          "problem of C03 / C04 / C05 (position of every node and the whole element list of the solution file, exact)."),
+    design_ref="DESIGN.md section 3, C03 and section 0.9",
     technique="Lean 4 proof (element-level refinement to the Galerkin form, ring/field_simp) + bit-exact model/implementation correspondence on the assembled system + independent weak-form oracle on solver output",
 )
 
